@@ -2,9 +2,12 @@ package chaingen
 
 import (
 	"crypto/sha256"
+	"encoding/binary"
 	"fmt"
 	"sort"
 	"strings"
+
+	"verifharness/hx"
 
 	"github.com/protolambda/zrnt/eth2/beacon"
 	"github.com/protolambda/zrnt/eth2/beacon/altair"
@@ -48,8 +51,9 @@ type PendingAtt struct {
 	Included  int
 	Again     bool // include a second time in a later block (valid duplicate)
 	// double vote: DoubleOf is the earlier (right source, WRONG target) vote of the same validators for the same epoch
-	DoubleOf   *PendingAtt
-	IncludedAt common.Slot
+	DoubleOf    *PendingAtt
+	IncludedAt  common.Slot
+	BeyondEpoch bool // deliberately held back beyond SLOTS_PER_EPOCH slots (deneb)
 }
 
 func bitlist(bits []bool) phase0.AttestationBits {
@@ -238,6 +242,47 @@ func (c *Chain) genPending(a common.Slot, epc *common.EpochsContext, flats []com
 		for _, k := range order {
 			pa := &PendingAtt{Slot: a, Index: common.CommitteeIndex(ci), Committee: append([]common.ValidatorIndex(nil), cm...),
 				Bits: groups[k], Variant: k.v, Due: a + k.d, Again: c.Rng.Chance(4)}
+			// EIP-7045: a deneb block may include a vote of the previous epoch later than SLOTS_PER_EPOCH slots after its slot (it
+			// still earns the target flag). Twice per chain the on-time votes of committee 0 of the FIRST slot of an epoch are held
+			// back until the second slot of the next epoch (a deneb epoch); the votes of the THIRD slot likewise, with a wrong target.
+			if m := c.modeOf[e]; ci == 0 && k.v == VarCorrect && k.d == 1 && uint64(e+1) < uint64(c.Epochs) && e+1 >= sp.DENEB_FORK_EPOCH &&
+				m != "boundary_hi" && m != "boundary_lo" && !c.isSide {
+				// (only the first two voters of the aggregate: the epoch's participation hardly changes)
+				split := func(variant int) {
+					sub := make([]bool, len(cm))
+					cnt, total := 0, 0
+					for _, b := range pa.Bits {
+						if b {
+							total++
+						}
+					}
+					if total < 3 {
+						return
+					}
+					rest := append([]bool(nil), pa.Bits...)
+					for i, b := range rest {
+						if b && cnt < 2 {
+							sub[i], rest[i] = true, false
+							cnt++
+						}
+					}
+					pa.Bits = rest
+					c.Pending = append(c.Pending, &PendingAtt{Slot: a, Index: common.CommitteeIndex(ci), Committee: pa.Committee, Bits: sub,
+						Variant: variant, Due: a + sp.SLOTS_PER_EPOCH + 1, BeyondEpoch: true})
+				}
+				switch a % sp.SLOTS_PER_EPOCH {
+				case 0:
+					if c.Vars["late_deneb_correct"] < 2 {
+						c.Vars["late_deneb_correct"]++
+						split(VarCorrect)
+					}
+				case 2:
+					if c.Vars["late_deneb_wrong_target"] < 2 && sp.SLOTS_PER_EPOCH >= 4 {
+						c.Vars["late_deneb_wrong_target"]++
+						split(VarWrongTarget)
+					}
+				}
+			}
 			if ci == 0 && a%sp.SLOTS_PER_EPOCH == 1 && k.v == VarCorrect && k.d == 1 && !c.NoDoubleVotes {
 				// once per epoch: the first members of this aggregate ALSO sign a vote with the right source and a wrong target
 				// (a slashable double vote, still valid to include); it is included FIRST, the fully correct vote after it —
@@ -286,6 +331,7 @@ type ProposeCtx struct {
 	// validators touched by operations of this block (avoid double use)
 	used          map[common.ValidatorIndex]bool
 	removed       int
+	allowSelf     bool         // the next manufactured proposer slashing may name the block's own proposer
 	forceOutside  bool         // the next manufactured slashing of an exiting validator is dated outside its window (no coin)
 	forcePreFork  bool         // the next manufactured slashing is dated before the state's last fork epoch
 	evidenceEpoch common.Epoch // override of the epoch the next manufactured attester slashing is dated at
@@ -344,8 +390,13 @@ func (p *ProposeCtx) slashable(v common.ValidatorIndex) bool {
 // AddProposerSlashing manufactures two conflicting signed headers of validator v.
 func (p *ProposeCtx) AddProposerSlashing(v common.ValidatorIndex) bool {
 	c := p.C
-	if c.Protected[v] || uint64(len(p.B.ProposerSlashings)) >= uint64(c.Spec.MAX_PROPOSER_SLASHINGS) || p.used[v] || !p.slashable(v) || v == p.B.ProposerIndex || !p.spare() {
+	if c.Protected[v] || uint64(len(p.B.ProposerSlashings)) >= uint64(c.Spec.MAX_PROPOSER_SLASHINGS) || p.used[v] || !p.slashable(v) || (v == p.B.ProposerIndex && !p.allowSelf) || !p.spare() {
 		return false
+	}
+	if v == p.B.ProposerIndex {
+		// the block slashes its own proposer (valid: the header only requires the proposer not to be slashed BEFORE the block);
+		// slashed validator, whistleblower and proposer are one and the same balance
+		p.Ops["pslash_of_block_proposer"]++
 	}
 	p.removed++
 	hslot := p.Slot - common.Slot(c.Rng.Intn(int(min64(uint64(p.Slot), 3))+1))
@@ -718,6 +769,11 @@ func (c *Chain) fillAttestations(p *ProposeCtx) {
 		}
 		if delay > c.Spec.SLOTS_PER_EPOCH {
 			p.Ops["att_beyond_epoch"]++
+			if pa.Variant == VarWrongTarget {
+				p.Ops["att_beyond_epoch_wrong_target"]++
+			} else {
+				p.Ops["att_beyond_epoch_correct_target"]++
+			}
 		}
 		switch pa.Variant {
 		case VarWrongHead:
@@ -1698,6 +1754,20 @@ func (c *Chain) defaultOps(p *ProposeCtx) {
 	if c.SlashExiting {
 		c.slashExiting(p)
 	}
+	// once per chain (not in `basic`, whose finality expectations are tight; not without shuffling, where one validator proposes
+	// every slot): the proposer includes the evidence against itself — slashed validator, whistleblower and proposer are one balance
+	if c.Vars["self_slash_total"] < 1 && p.Epoch >= 2 && !c.isSide && !c.SlashExiting && !c.QuietRegistry && !c.SyncSeat && c.Spec.SHUFFLE_ROUND_COUNT > 0 {
+		// (own random stream: the rest of the chain stays what it was)
+		saved := c.Rng
+		c.Rng = hx.NewEnv("self", "", binary.LittleEndian.Uint64(c.GVR[:8])+uint64(p.Slot), "").Rng
+		p.allowSelf = true
+		if p.AddProposerSlashing(p.B.ProposerIndex) {
+			c.Vars["self_slash_total"]++
+		}
+		p.allowSelf = false
+		c.Rng = saved
+	}
+
 	if r.Chance(rate.Exit) {
 		for k := 0; k < 1+r.Intn(3); k++ {
 			p.AddExit(common.ValidatorIndex(r.Intn(n)))
